@@ -97,10 +97,15 @@ Entries(t, h) == {[tx |-> t, vout |-> v, h |-> h] : v \in 1..Len(OutsOf(t, 0))}
 ----------------------------------------------------------------------------
 (* C04: what a block must satisfy to be connected on top of view `u` at height `h` *)
 
-\* process the inputs of tx t against view u; returns [u, viol, insum, known]
+\* signature-operation cost an input adds when it spends output o (BIP 141): the redeem script of a P2SH output
+\* counts 4 per operation, a witness script 1 per operation, a P2WPKH spend 1
+\* (types 9/10: P2SH / P2WSH whose script holds addr x OP_CHECKSIG in a branch that is never executed)
+InSops(o) == IF o.st = 9 THEN 4 * o.addr ELSE IF o.st = 10 THEN o.addr ELSE IF o.st = 5 THEN 1 ELSE 0
+
+\* process the inputs of tx t against view u; returns [u, viol, insum, known, sops]
 RECURSIVE SpendIns(_, _, _, _, _)
 SpendIns(ins, i, u, h, acc) ==
-    IF i > Len(ins) THEN [u |-> u, viol |-> acc.viol, insum |-> acc.insum, allknown |-> acc.allknown]
+    IF i > Len(ins) THEN [u |-> u, viol |-> acc.viol, insum |-> acc.insum, allknown |-> acc.allknown, sops |-> acc.sops]
     ELSE LET in == ins[i]
              cand == {e \in u : e.tx = in.tx /\ e.vout = in.vout}
          IN IF cand = {}
@@ -110,7 +115,8 @@ SpendIns(ins, i, u, h, acc) ==
                      v2 == IF ~in.ok THEN {"script"} ELSE {}
                      v3 == IF CheckBIP68 /\ in.rl > 0 /\ e.h + in.rl > h THEN {"bip68"} ELSE {}
                  IN SpendIns(ins, i + 1, u \ {e}, h,
-                             [acc EXCEPT !.viol = @ \cup v1 \cup v2 \cup v3, !.insum = AmtAdd(@, OutOf(e).amt)])
+                             [acc EXCEPT !.viol = @ \cup v1 \cup v2 \cup v3, !.insum = AmtAdd(@, OutOf(e).amt),
+                                         !.sops = @ + InSops(OutOf(e))])
 
 \* fold over the transactions of a block; st = [u, viol, fees, sops, feesKnown]
 RECURSIVE ApplyTxs(_, _, _, _)
@@ -118,7 +124,7 @@ ApplyTxs(txs, i, h, st) ==
     IF i > Len(txs) THEN st
     ELSE LET t == txs[i]
              d == TxDef[t]
-             r == SpendIns(d.ins, 1, st.u, h, [viol |-> {}, insum |-> Zero, allknown |-> TRUE])
+             r == SpendIns(d.ins, 1, st.u, h, [viol |-> {}, insum |-> Zero, allknown |-> TRUE, sops |-> 0])
              outsum == AmtSumSeq([k \in 1..Len(d.outs) |-> d.outs[k].amt])
              vr == IF CheckMoney /\ (~InRange(outsum) \/ \E k \in 1..Len(d.outs) : ~InRange(d.outs[k].amt)) THEN {"range"} ELSE {}
              vo == IF r.allknown /\ AmtLT(r.insum, outsum) THEN {"overspend"} ELSE {}
@@ -128,7 +134,7 @@ ApplyTxs(txs, i, h, st) ==
                       viol |-> st.viol \cup r.viol \cup vr \cup vo,
                       fees |-> IF feeOK /\ st.feesKnown THEN AmtAdd(st.fees, AmtSub(r.insum, outsum)) ELSE st.fees,
                       feesKnown |-> st.feesKnown /\ feeOK,
-                      sops |-> st.sops + d.sops])
+                      sops |-> st.sops + d.sops + r.sops])
 
 \* result of trying to connect block b on view u at height h: [viol, u (the view after the block), spent]
 Connect(b, u, h) ==
